@@ -496,6 +496,10 @@ class SimpleT2Decompiler(object):
 
     def op_blend(self, index):
         if self.numRegions == 0:
+            # no vsindex operator so far: the VarData is the one the PrivateDict
+            # names (default 0), for the blender as well as for the region count
+            if hasattr(self.private, "vsindex"):
+                self.vsIndex = self.private.vsindex
             self.numRegions = self.private.getNumRegions()
         numBlends = self.pop()
         numOps = numBlends * (self.numRegions + 1)
